@@ -7,7 +7,7 @@ import subprocess
 
 from vlib import Infra, read_ndjson, save_replay, tlc_mc, tlc_sim, validate_batch, write_ndjson, write_evidence
 
-BINDINGS = [('engine-sst', False), ('engine-tiny', False), ('engine-mixed', True), ('tx', False)]
+BINDINGS = [('engine-sst', False), ('engine-tiny', False), ('engine-mixed', True), ('tx', False), ('engine-sst-big', False)]
 
 
 def replay(ctx, behs, binding, binary, tag):
@@ -59,7 +59,7 @@ def check_C05(ctx):
     if not replay(ctx, [b2], 'engine-sst', False, 'selftest'):
         raise Infra('binding self-test failed: a corrupted cursor prediction was not noticed')
     ctx.notes['binding_selftest'] = 'corrupted predicted position noticed by the replay'
-    with cf.ThreadPoolExecutor(max_workers=4) as ex:
+    with cf.ThreadPoolExecutor(max_workers=5) as ex:
         futs = {ex.submit(replay, ctx, behs, bd, bn, 'main'): (bd, bn) for bd, bn in BINDINGS}
         for f in cf.as_completed(futs):
             bd, bn = futs[f]
